@@ -183,7 +183,7 @@ def step (s : EState) (t : Nat) : Option EState :=
       | [] =>
         let th' := { th with cur := none, results := th.results ++ [fr.res] }
         if fr.m = .newScope then
-          let A : ScopeS := { live := true, data := fr.fresh, outer := some fr.cur, rank := s.clock }
+          let A : ScopeS := { s.scopes fr.newId with live := true, data := fr.fresh, outer := some fr.cur, rank := s.clock }
           some { s with scopes := updS s.scopes fr.newId A, threads := upd s.threads t th', clock := s.clock + 1,
                         writes := s.writes ++ fr.binds.map fun kv => (fr.newId, kv.1, kv.2) }
         else some { s with threads := upd s.threads t th' }
